@@ -61,6 +61,18 @@ func (w *world) export(op WOp) {
 		w.guard("CalcHash", func() { root.CalcHash() })
 		w.stats.Inc("probe.export-from-uncommitted-in-memory-source")
 	}
+	if op.B%4 == 1 && w.clean && len(keys) > 0 {
+		// fork: the export is taken from a snapshot made with CopyRoot while the trie it was copied from goes
+		// on being updated (one requested key gets a new value there, uncommitted). The snapshot must not notice.
+		var snap *wmpt.WeightedMerkleTrie
+		if w.guard("CopyRoot", func() { snap = wmpt.New(w.t.CopyRoot(100), w.db) }) {
+			return
+		}
+		nv := []byte("changed-in-the-original-after-the-snapshot")
+		w.guard("Update of the original", func() { _ = w.t.Update(keys[0], nv, weightOf(nv)) })
+		w.t = snap
+		w.stats.Inc("probe.export-from-a-copyroot-snapshot-of-a-trie-that-moves-on")
+	}
 	var data []byte
 	var err error
 	if op.A > 0 && w.kv != nil {
